@@ -1097,6 +1097,10 @@ func (x *Exec) assumeHere(t Term) {
 }
 
 func (x *Exec) keepThin(kind, label string) bool {
+	if kind == "post" && strings.HasPrefix(label, "ghost") {
+		// bookkeeping clause: defines a ghost counter (no code updates ghost state); assumed by callers, reported as such
+		return false
+	}
 	if x.flags["lockonly"] && len(x.only) == 0 {
 		x.only = []string{"locks"}
 	}
